@@ -567,8 +567,21 @@ pub proof fn lemma_buf_push(infos: Seq<BufferEntryInfo>, x: BufferEntryInfo)
     }
 }
 /// writable tail of the flush buffer (`&mut self.bytes[offset..]`): only its length matters here
-pub struct TailT { pub n: usize }
+pub struct TailT { pub n: usize, pub answer: Ghost<core::result::Result<KvInfo, Error>>, pub header: Ghost<Option<EntryHeader>> }
 impl TailT { pub fn len(&self) -> (r: usize) ensures r == self.n { self.n } }
+#[derive(Clone, Copy, PartialEq, Eq, Structural)]
+pub enum ErrorKind { BufferSizeLimit, Io, Other }
+#[derive(Debug)]
+pub struct Error { pub k: u8 }
+impl Error { #[verifier::external_body] pub fn kind(&self) -> ErrorKind { unimplemented!() } }
+/// `EntrySerializer::serialize(key, value, compression, &mut buf[from..])`: value then key written behind the header
+/// slot, lengths reported; Err (nothing usable written) when they do not fit (contract of the real function: unit serde)
+#[verifier::external_body]
+pub fn verif_serialize(buf: &mut TailT, from: usize) -> (r: core::result::Result<KvInfo, Error>)
+    requires from <= old(buf).n,
+    ensures r == old(buf).answer@, final(buf).n == old(buf).n, final(buf).answer == old(buf).answer, final(buf).header == old(buf).header,
+        r matches Ok(i) ==> from + i.key_len + i.value_len <= old(buf).n && i.key_len <= u32::MAX && i.value_len <= u32::MAX,
+{ unimplemented!() }
 #[verifier::external_body]
 pub fn verif_tail_mut(bytes: &mut IoSliceMut, offset: usize) -> (r: TailT)
     requires offset <= old(bytes).n, // @label tail_starts_inside_the_buffer
@@ -578,7 +591,7 @@ pub fn verif_tail_mut(bytes: &mut IoSliceMut, offset: usize) -> (r: TailT)
 #[verifier::external_body]
 pub fn verif_copy(buf: &mut TailT, slice: &[u8], n: usize)
     requires n == slice@.len(), n <= old(buf).n, // @label raw_entry_copied_inside_the_buffer
-    ensures final(buf).n == old(buf).n,
+    ensures final(buf).n == old(buf).n, final(buf).answer == old(buf).answer, final(buf).header == old(buf).header,
 { }
 pub uninterp spec fn checksum_of_range(a: int, b: int) -> u64;
 /// `Checksummer::checksum64(&buf[a..b])`
@@ -591,7 +604,7 @@ pub fn verif_checksum(buf: &TailT, a: usize, b: usize) -> (r: u64)
 #[verifier::external_body]
 pub fn verif_header_write(h: &EntryHeader, buf: &mut TailT, n: usize)
     requires n == 36, n <= old(buf).n, // @label header_written_at_the_start_of_the_entry
-    ensures final(buf).n == old(buf).n,
+    ensures final(buf).n == old(buf).n, final(buf).answer == old(buf).answer, final(buf).header@ == Some(*h),
 { }
 
 impl EntryHeader {
@@ -623,34 +636,25 @@ impl Buffer {
         proof { lemma_align_up(slice@.len() as int); lemma_buf_push(self.entry_infos@, BufferEntryInfo { hash: hash, sequence: sequence, offset: offset, len: len }); }
 //@end
 
-// ---- Buffer::push, header part: lengths, checksum over exactly key+value bytes, compression tag
-//@region foyer-storage/src/engine/block/buffer.rs :: impl~^impl Buffer$/fn push name=push_header start=/let checksum = / stmts=3 sub=@(?s)Checksummer::checksum64\(\s*&buf\[([^\]]*?)\s*\.\.([^\]]*?)\],?\s*\)@verif_checksum(&buf, \1, \2)@ sub=@header\.write\(&mut buf\[\.\.([^\]]*)\]\);@verif_header_write(&header, buf, \1);@ sub=@info\.key_len as _@info.key_len as u32@ sub=@info\.value_len as _@info.value_len as u32@
+// ---- Buffer::push from the serializer call to the end: header (lengths, checksum over exactly the value+key bytes,
+// compression tag) and commit (refuse the entry as a whole if it exceeds the per-entry limit, else record it at the old
+// write position and advance the write position by the SAME aligned length the splitter will compute from `len`)
+//@region foyer-storage/src/engine/block/buffer.rs :: impl~^impl Buffer$/fn push name=push_body start=/let info = match EntrySerializer::serialize\(/ stmts=99 rules=drop-tracing,drop-metrics sub=@EntrySerializer::serialize\(key, value, compression, &mut buf\[([^\]]*)\.\.\]\)@verif_serialize(buf, \1)@ sub=@(?s)Checksummer::checksum64\(\s*&buf\[([^\]]*?)\s*\.\.([^\]]*?)\],?\s*\)@verif_checksum(&buf, \1, \2)@ sub=@header\.write\(&mut buf\[\.\.([^\]]*)\]\);@verif_header_write(&header, buf, \1);@ sub=@info\.key_len as _@info.key_len as u32@ sub=@info\.value_len as _@info.value_len as u32@
 //@head
-    fn push_header(buf: &mut TailT, info: &KvInfo, hash: u64, sequence: Sequence, compression: Compression) -> (h: EntryHeader)
-        requires 36 + info.key_len + info.value_len <= old(buf).n, info.key_len <= u32::MAX, info.value_len <= u32::MAX,
-        ensures
-            h.key_len == info.key_len && h.value_len == info.value_len, // @label header_records_the_serialized_lengths
-            h.checksum == checksum_of_range(36, 36 + info.key_len + info.value_len), // @label checksum_covers_exactly_value_and_key_bytes
-            h.hash == hash && h.sequence == sequence && h.compression == compression, // @label header_records_hash_sequence_compression
-//@tail
-        header
-//@end
-
-// ---- Buffer::push, commit part: refuse the entry as a whole if it exceeds the per-entry limit, else record it
-//@region foyer-storage/src/engine/block/buffer.rs :: impl~^impl Buffer$/fn push name=push_commit start=/let len = / stmts=99 rules=drop-tracing
-//@head
-    fn push_commit(&mut self, offset: usize, info: KvInfo, hash: u64, sequence: Sequence) -> (r: bool)
+    fn push_body(&mut self, buf: &mut TailT, offset: usize, hash: u64, sequence: Sequence, compression: Compression) -> (r: bool)
         requires
-            old(self).wf(), offset == old(self).written,
-            // the serializer wrote header + value + key inside the remaining buffer
-            36 + info.key_len + info.value_len <= old(self).bytes.n - old(self).written,
+            old(self).wf(), offset == old(self).written, old(buf).n == old(self).bytes.n - old(self).written, old(buf).n >= 36,
         ensures
             final(self).wf(), // @label buffer_invariant_preserved
             final(self).bytes == old(self).bytes && final(self).max_entry_size == old(self).max_entry_size,
-            r == (align_up_spec(36 + info.key_len + info.value_len) <= old(self).max_entry_size), // @label oversize_entry_is_refused_whole
+            old(buf).answer@ is Err ==> !r, // @label entry_the_serializer_refused_is_refused
+            old(buf).answer@ matches Ok(i) ==> r == (align_up_spec(36 + i.key_len + i.value_len) <= old(self).max_entry_size), // @label oversize_entry_is_refused_whole
             !r ==> final(self).written == old(self).written && final(self).entry_infos@ == old(self).entry_infos@, // @label refused_entry_leaves_no_trace
-            r ==> final(self).written == old(self).written + align_up_spec(36 + info.key_len + info.value_len)
-                && final(self).entry_infos@ == old(self).entry_infos@.push(BufferEntryInfo { hash: hash, sequence: sequence, offset: old(self).written, len: (36 + info.key_len + info.value_len) as usize }), // @label recorded_length_is_header_plus_key_plus_value
+            r ==> (old(buf).answer@ matches Ok(i) && final(self).written == old(self).written + align_up_spec(36 + i.key_len + i.value_len)
+                && final(self).entry_infos@ == old(self).entry_infos@.push(BufferEntryInfo { hash: hash, sequence: sequence, offset: old(self).written, len: (36 + i.key_len + i.value_len) as usize })), // @label recorded_length_is_header_plus_key_plus_value_and_the_buffer_advances_by_its_aligned_length
+            r ==> (old(buf).answer@ matches Ok(i) && (final(buf).header@ matches Some(h) && h.key_len == i.key_len && h.value_len == i.value_len
+                && h.checksum == checksum_of_range(36, 36 + i.key_len + i.value_len)
+                && h.hash == hash && h.sequence == sequence && h.compression == compression)), // @label header_records_lengths_checksum_over_exactly_value_and_key_bytes_hash_sequence_compression
 //@before /let info = BufferEntryInfo \{/
         proof {
             lemma_align_up(len as int);
